@@ -12,8 +12,11 @@ class CorruptDataError(PDFException):
 
 
 class LZWDecoder:
-    def __init__(self, fp: BinaryIO) -> None:
+    def __init__(self, fp: BinaryIO, early_change: int = 1) -> None:
         self.fp = fp
+        # /EarlyChange of the LZWDecode parameters: 1 (the default) means the
+        # code length grows one code early, 0 means as late as possible.
+        self.early_change = 1 if early_change else 0
         self.buff = 0
         self.bpos = 8
         self.nbits = 9
@@ -67,12 +70,12 @@ class LZWDecoder:
                 x = cast(bytes, self.table[code])
             else:
                 raise CorruptDataError
-            table_length = len(self.table)
-            if table_length == 511:
+            table_length = len(self.table) + self.early_change
+            if table_length == 512:
                 self.nbits = 10
-            elif table_length == 1023:
+            elif table_length == 1024:
                 self.nbits = 11
-            elif table_length == 2047:
+            elif table_length == 2048:
                 self.nbits = 12
             self.prevbuf = x
         return x
@@ -99,7 +102,7 @@ class LZWDecoder:
             )
 
 
-def lzwdecode(data: bytes) -> bytes:
+def lzwdecode(data: bytes, early_change: int = 1) -> bytes:
     fp = BytesIO(data)
-    s = LZWDecoder(fp).run()
+    s = LZWDecoder(fp, early_change).run()
     return b"".join(s)
